@@ -137,6 +137,23 @@ def check_tree(tree, Walker, Node):
                 return 'descendant yielded before its parent'
     if [id(n) for n in w.walk(tree)] != ids:
         return 'second walk yields a different order'
+    # document order: the children of every node are met in the order of the source offsets of their first leaf
+    first = {}
+
+    def first_leaf(n):
+        if id(n) not in first:
+            ch = reflect_children(n, Node)
+            cand = [first_leaf(c) for c in ch]
+            cand = [c for c in cand if c is not None]
+            if not ch and getattr(n, 'lexpos', None) is not None:
+                cand.append(n.lexpos)
+            first[id(n)] = min(cand) if cand else None
+        return first[id(n)]
+    for n in seq + [tree]:
+        offs = [first_leaf(c) for c in n]
+        offs = [o for o in offs if o is not None]
+        if offs != sorted(offs):
+            return 'walk is not in document order (children of %s): first-leaf offsets %r' % (type(n).__name__, offs)
     conds = [('true', lambda n: True)] + [(t.__name__, (lambda t: lambda n: type(n) is t)(t)) for t in {type(n) for n in seq}]
     for name, c in conds:
         if [id(n) for n in w.filter(tree, c)] != [id(n) for n in seq if c(n)]:
@@ -244,11 +261,35 @@ def main():
     Tb, G = gx.extract(p)
     N = 5 if th else 4
     words = gx.enumerate_accepted(Tb, G, N)
+    # + one sentence per production (each right-hand side symbol expanded to its shortest phrase, in the shortest context of
+    # the left-hand side), so that every node kind occurs with all of its sub-nodes present (document order obligation)
+    from . import ppcheck
+    ctxs = ppcheck.c03mod.contexts(G)
+    short = {t: (t,) for t in G.terms}
+    ch = True
+    while ch:
+        ch = False
+        for l, r in G.prods:
+            if all(x in short for x in r):
+                wv = tuple(y for x in r for y in short[x])
+                if l not in short or len(wv) < len(short[l]):
+                    short[l] = wv
+                    ch = True
+    nprod = 0
+    for l, r in G.prods:
+        if l in ctxs:
+            u, v = ctxs[l]
+            w = tuple(u) + tuple(y for x in r for y in short[x]) + tuple(v)
+            w = tuple('SEMI' if t == 'AUTOSEMI' else t for t in w)
+            if w and gx.lr_run(Tb, list(w)) is not None:
+                words.append(w)
+                nprod += 1
+    words = list(dict.fromkeys(tuple(w) for w in words))
     _TL['sp'] = actions.spellings(type(p.lexer))
     chunks = [words[i::64] for i in range(64)]
     res = common.pmap(_tree_job, chunks)
     ntrees = sum(r[0] for r in res)
-    run.leg('T_structure_space', accepted_token_strings=len(words), trees_parsed=ntrees, max_len=N)
+    run.leg('T_structure_space', accepted_token_strings=len(words), per_production_sentences=nprod, trees_parsed=ntrees, max_len=N)
     for n, bad in res:
         for text, msg in bad:
             key = 'T: ' + msg.split(':')[0][:80]
